@@ -269,6 +269,17 @@ def normalizeStringForPostscript(s, allowSpaces=True):
             c = unicodedata.normalize("NFKD", c)
             if not set(c) < _postscriptFontNameAllowed:
                 c = c.encode("ascii", errors="replace").decode()
+            # the decomposition or the ASCII fallback may itself produce characters
+            # that are not allowed (spaces, controls, brackets): drop those as well
+            c = "".join(
+                x
+                for x in c
+                if (x == " " and allowSpaces)
+                or (
+                    x in _postscriptFontNameAllowed
+                    and x not in _postscriptFontNameExceptions
+                )
+            )
         normalized.append(c)
     return "".join(normalized)
 
